@@ -10,3 +10,9 @@ MUTANTS = [
     {'name': 'KEYS row fifths wrong', 'file': 'partitura/utils/globals.py', 'old': '    ("Eb", "major", -3),', 'new': '    ("Eb", "major", 3),', 'expect': 'F3-KEYS'}]
 
 NEUTRALS = []
+
+# changes made by sub-agents that were given only the property text (see /verif/seeded/<id>/): each must stay reported
+SEEDED = [
+    {'name': 'seeded change C17-r2', 'seed': 'C17-r2', 'expect': '|GROUPBY|'},
+]
+MUTANTS += SEEDED
